@@ -9,6 +9,10 @@ Ltac Zify.zify_post_hook ::= Z.div_mod_to_equations.
 Lemma gen_quorum_majority : forall total, total < gen_quorum total + gen_quorum total.
 Proof. intros total. unfold gen_quorum. lia. Qed.
 
+(* a quorum never needs more voters than there are *)
+Lemma gen_quorum_within : forall total, 1 <= total -> gen_quorum total <= total.
+Proof. intros total H. unfold gen_quorum. lia. Qed.
+
 (* the follower never acknowledges beyond what the request verified, nor beyond its own log *)
 Lemma gen_ack_verified : forall prev_i lastnew len,
   gen_follower_ack prev_i lastnew len <= lastnew /\ gen_follower_ack prev_i lastnew len <= len.
